@@ -40,11 +40,26 @@ func BuildWorlds(cfg Config, prop string, nFix, nSyn, rejectPct int, rich bool, 
 		}
 		out = append(out, fx...)
 	}
+	// rejected families are dealt round-robin, starting with the one that fails
+	// last (at formatting, i.e. after everything but the write), so that even a
+	// small batch holds a late failure; likewise the first accepted synthetic
+	// worlds are forced to have a dotted setup file name / a nested package dir
+	late := []string{"bad-literal", "unknown-converter", "syntax-error", "non-struct-operand", "reverse-without-arg", "unresolved-type", "no-interface", "bad-style"}
+	nRej, nAcc := 0, 0
 	for i := 0; i < nSyn; i++ {
 		r := sim.Derive(cfg.Seed, prop, "world", i)
 		opts := sim.GenOpts{Rich: rich}
-		if r.Intn(100) < rejectPct {
-			opts.Reject = sim.Pick(r, sim.RejectFamilies)
+		if r.Intn(100) < rejectPct || (rejectPct > 0 && i == 1) {
+			opts.Reject = late[nRej%len(late)]
+			nRej++
+		} else {
+			switch nAcc {
+			case 0:
+				opts.SetupName = "my.setup.go"
+			case 1:
+				opts.Nested = true
+			}
+			nAcc++
 		}
 		out = append(out, sim.GenWorld(r, opts, variants))
 	}
